@@ -83,6 +83,10 @@ def gen_cases(tier, seed):
             if k % 4 == 1:
                 o.update(crop_disruption="country_nuclear_winter", grasses="country_nuclear_winter")
         cases.append({"kind": "through_runner", "iso": "ALL", "opts": o, "id": "through_runner#%d" % k})
+        # ... and the same option vector written into a scenario file and run through the yaml entry point, the file also carrying
+        # a key that is not an option (baseline_USA.yaml ships with a dead 'buffer:' line, the former name of ratio_stocks_untouched)
+        o2 = dict(o, buffer=[v for v in workload.families("country")["ratio_stocks_untouched"] if v != o["ratio_stocks_untouched"]][k % 3])
+        cases.append({"kind": "through_runner", "iso": "ALL", "opts": o2, "via_yaml": True, "id": "through_yaml#%d" % k})
     for iso in (["ARG", "LUX"] if tier == "quick" else ["ARG", "LUX", "SWT", "USA", "DJI", "NZL"]):
         cases.append({"kind": "end_to_end_rejection", "iso": iso, "gen_seed": seed, "id": "e2e/%s" % iso})
     return cases
@@ -909,7 +913,7 @@ def through_runner(case):
         cx.iso, cx.glob, cx.row, cx.viol, cx.seen, cx.n = iso, False, rows.iloc[0], agg.viol, agg.seen, agg.n
         row_mapping(cx, c)
         for f, v in submitted.items():
-            if f in ("scale",):
+            if f in ("scale", "buffer", "title"):
                 continue
             agg.n["values_through_runner"] += 1
             spec_check(cx, f, v, submitted, c, t)
@@ -918,8 +922,16 @@ def through_runner(case):
     ScenarioRunner.run_and_analyze_scenario = stub
     try:
         with contextlib.redirect_stdout(io.StringIO()):
-            ScenarioRunnerNoTrade().run_model_no_trade(title="r", create_pptx_with_all_countries=False, show_country_figures=False, show_map_figures=False,
-                                                      add_map_slide_to_pptx=False, scenario_option=opts, countries_list=[], return_results=True)
+            if case.get("via_yaml"):
+                from src.scenarios import run_scenarios_from_yaml as ry
+
+                sim = {k: v for k, v in opts.items() if k != "NMONTHS"}
+                sim["title"] = "r"
+                ry.run_scenarios_from_yaml({"settings": {"NMONTHS": opts["NMONTHS"], "countries": []}, "simulations": {"only": sim}}, False, False, False)
+                opts = submitted  # (the entry point works on the file's own dictionaries)
+            else:
+                ScenarioRunnerNoTrade().run_model_no_trade(title="r", create_pptx_with_all_countries=False, show_country_figures=False, show_map_figures=False,
+                                                          add_map_slide_to_pptx=False, scenario_option=opts, countries_list=[], return_results=True)
     except BaseException as e:  # noqa: BLE001
         if isinstance(e, KeyboardInterrupt):
             raise
